@@ -325,10 +325,14 @@ func elgamalKeys() []*elgamalKey {
 func egMessage(p *k256.Point) *egMsg   { return must(indcpacom.NewMessage(must(elgamal.NewPlaintext(p)))) }
 func egWitness(s *k256.Scalar) *egWit { return must(indcpacom.NewWitness(must(elgamal.NewNonce(s)))) }
 
-// elgamalMessagePoints: O, G, 2G, -G and one stream-derived multiple of G.
+// elgamalMessagePoints: O, G, -G and one stream-derived multiple of G; thorough adds 2G.
 func elgamalMessagePoints(c *curveCtx[*k256.Point, *k256.Scalar]) []*k256.Point {
 	G := c.group.Generator()
-	return []*k256.Point{c.group.OpIdentity(), G, G.Op(G), G.OpInv(), G.ScalarOp(c.scalar(newStream("elgamal/msg").bigBelow(c.q())))}
+	a := []*k256.Point{c.group.OpIdentity(), G, G.OpInv(), G.ScalarOp(c.scalar(newStream("elgamal/msg").bigBelow(c.q())))}
+	if engine.Thorough() {
+		a = append(a, G.Op(G))
+	}
+	return a
 }
 
 func elgamalFaultBody(c *curveCtx[*k256.Point, *k256.Scalar]) func(*engine.X) {
